@@ -12,6 +12,7 @@ import (
 	"encoding/json"
 	"fmt"
 	"os"
+	"runtime"
 	"sync"
 	"time"
 )
@@ -294,6 +295,12 @@ func SetParam(name string, v int) {
 	}
 	replay.Params[name] = v
 	mu.Unlock()
+}
+
+// SetProcs sets the number of CPUs the code under test sees from here on: in the engine the value returned
+// by runtime.GOMAXPROCS(0) and runtime.NumCPU(); natively runtime.GOMAXPROCS(n) (NumCPU cannot be changed).
+func SetProcs(n int) {
+	runtime.GOMAXPROCS(n)
 }
 
 // SameSymbol reports whether two bytes are the very same symbolic value (engine) /
